@@ -18,7 +18,7 @@
     uses the same token (C14; oracle + balance correspondence). *)
 From LP Require Import Proofs.Tactics Proofs.LedgerBase Proofs.Gates Proofs.Frames Proofs.Settle Proofs.Confirm Proofs.Ledger
   Proofs.ClaimLedger Proofs.Loop Proofs.Resume Proofs.FisherYates Proofs.Shuffle Proofs.Rng Proofs.Filter Proofs.Partition
-  Proofs.GuaranteedLoop Proofs.Leftover Proofs.Lifecycle Proofs.Examples.
+  Proofs.GuaranteedLoop Proofs.Leftover Proofs.Lifecycle Proofs.Setup Proofs.Examples.
 Open Scope N_scope.
 
 Theorem C01_confirm_keeps_solvency : forall (H : list N -> list N) v e b sd w n w' r A,
@@ -191,6 +191,34 @@ Theorem C01_pipeline_gt : forall (H : list N -> list N) v2 l w0 lf wf ef bf w1 l
   (forall t, status (st w2) t = true -> status (st w3) t = true).
 Proof. exact pipeline_gt. Qed.
 
+(** ** from deployment (launchpad; launchpad-locked-tokens runs the same endpoints): [PreSel] holds in
+    every state reached from a deployment with an ESDT launchpad token by accepted allocation
+    (positive sizes), deposit, confirmation, pause / unpause, timeline and support transactions - so
+    the pipeline theorem needs no hypothesis about the state at all *)
+Theorem C01_setup_reach : forall (H : list N -> list N) w, setup_reach H w -> exists l, PreSel w l.
+Proof. exact setup_reach_PreSel. Qed.
+
+Theorem C01_from_deployment : forall (H : list N -> list N) w0 lf wf ef bf w1 ls ws es bs w2 sd rest,
+  setup_reach H w0 ->
+  after_interrupted filter_tickets lf w0 = Some wf -> filter_tickets ef bf wf = Ok (w1, 0) ->
+  seeds w1 = sd :: rest ->
+  after_interrupted (select_winners H) ls w1 = Some ws -> select_winners H es bs ws = Ok (w2, 0) ->
+  exists l : list (N * N),
+    let A := map fst l in
+    let total := sumN (map (confirmed (st w0)) A) in
+    let k := N.min (nr_winning (st w0)) total in
+    let wins := fst (fy (N.to_nat k) (range_ids 1 total) (rng_words H (N.to_nat k) {| r_seed := sd; r_index := 0 |})) in
+    ClaimInv w2 A /\
+    Layout (range (st w2)) (confirmed (st w2)) 0 A /\ last_ticket_id (st w2) = total /\
+    nr_winning (st w2) = k /\ (forall t, status (st w2) t = true <-> In t wins) /\ NoDup wins /\
+    claimable_payment (st w2) = price (st w0) * k /\ confirmed (st w2) = confirmed (st w0).
+Proof. exact deployed_pipeline. Qed.
+
+(** the concrete history of [Examples] (deployment, allocation of 3 + 2, deposit, two confirmations,
+    each an [exec] transaction) is such a set-up history *)
+Example C01_setup_nonvacuous : setup_reach sha256 base_confirmed.
+Proof. exact base_confirmed_reachable. Qed.
+
 (** [PreSel] is satisfied by a state reached from deployment through real transactions (allocation of
     3 + 2 tickets, deposit, two confirmations of 2) *)
 Example C01_pipeline_nonvacuous : PreSel base_confirmed [(2, 3); (3, 2)].
@@ -231,6 +259,9 @@ Print Assumptions C01_drained.
 Print Assumptions C01_pipeline.
 Print Assumptions C01_pipeline_drained.
 Print Assumptions C01_pipeline_gt.
+Print Assumptions C01_setup_reach.
+Print Assumptions C01_from_deployment.
+Print Assumptions C01_setup_nonvacuous.
 Print Assumptions C01_pipeline_nonvacuous.
 Print Assumptions C01_claim_nonvacuous.
 Print Assumptions C01_nonvacuous.
